@@ -424,9 +424,13 @@ def r8_op_id_maps(ctx):
   fo = ctx.repo.cls(PERF).methods.get('_first_original_op_at_or_after')
   if fo is not None:
     ctx.instance(R)
-    ps = defuse.paths(fo.node)
-    txt = defuse.norm(fo.node)
-    ctx.check(R, '>=' in txt and 'enumerate(' in txt and 'return len(' in txt, fo.node, fo, 'first original op at/after position', 'must return the first original op whose current position is >= the insert position, else len(map)')
+    it2 = tables.interp(ctx)
+    for m, pos in (([0, 1, 3, 4], 2), ([0, 1, 3, 4], 3), ([0, 1, 3, 4], 5), ([2, 3], 0), ([], 0), ([0, 2, 2], 2)):
+      so = Obj(PERF, {'_original_op_id_map': [[9], list(m)]})
+      outs = it2.outcomes(fo, [so, 1, pos], copy_args=False)
+      want = next((i for i, p in enumerate(m) if p >= pos), len(m))
+      ok = len(outs) == 1 and outs[0].kind == 'return' and outs[0].value == want
+      ctx.check(R, ok, fo.node, fo, f'map {m}, position {pos} -> {[o.short() for o in outs]}', f'must return {want}: the first original op whose current position is >= the insert position, else len(map)')
 
 
 def run(ctx):
@@ -440,6 +444,7 @@ def run(ctx):
   r8_op_id_maps(ctx)
   r10_grouping_table(ctx)
   shared.rule_performer_translation(ctx, 'C01.R12')
+  shared.rule_performer_simulation(ctx, 'C01.R14')
   from sa.rules import c19  # pylint: disable=g-import-not-at-top
   ctx.rule('C01.R13', 'graph info: every tensor records its own id, its producer and one consumer entry per consuming operator', floor=1)
   gi = ctx.repo.func(f'{c19.TIG}._tensor_info_generator')
